@@ -35,16 +35,20 @@ for f in $d/demo/*.rs; do
   [ "$crate" = actix-http ] && feat="--features http2,ws,compress-gzip,compress-brotli,compress-zstd"
   [ "$crate" = awc ] && feat="--features compress-gzip,compress-brotli,compress-zstd"
   [ "$crate" = actix-web ] && feat="--features compress-gzip,compress-brotli,compress-zstd,macros"
+  # patched tree (re-applied for every demo file: several demos per seed are possible)
+  git checkout -q -- . ; git apply $d/patch.diff
   mkdir -p $wt/$crate/tests; cp $f $wt/$crate/tests/$name.rs
   echo "== demo $name in $crate WITH patch"
   cargo test -p $crate --offline $feat --test $name 2>&1 | grep -E "^test result|FAILED|panicked|^error" | head -10
-  if [ "${PIPESTATUS[0]}" = 0 ]; then demo_res_with=PASS; else demo_res_with=FAIL; fi
-  git stash -q; mkdir -p $wt/$crate/tests; cp $f $wt/$crate/tests/$name.rs
+  r=${PIPESTATUS[0]}
+  # one failing demo is enough to demonstrate the breakage; all must pass on the clean tree
+  if [ "$r" != 0 ]; then demo_res_with=FAIL; elif [ "$demo_res_with" = NA ]; then demo_res_with=PASS; fi
+  git checkout -q -- .
   echo "== demo $name in $crate WITHOUT patch"
   cargo test -p $crate --offline $feat --test $name 2>&1 | grep -E "^test result|FAILED|panicked|^error" | head -10
-  if [ "${PIPESTATUS[0]}" = 0 ]; then demo_res_without=PASS; else demo_res_without=FAIL; fi
+  r=${PIPESTATUS[0]}
+  if [ "$r" != 0 ]; then demo_res_without=FAIL; elif [ "$demo_res_without" = NA ]; then demo_res_without=PASS; fi
   rm -f $wt/$crate/tests/$name.rs
-  git stash pop -q
 done
 git checkout -q -- . ; git clean -fdq -e target -e SEED >/dev/null 2>&1
 echo "RESULT apply=OK suite_with_patch=$suite demo_with_patch=$demo_res_with demo_without_patch=$demo_res_without"
